@@ -127,7 +127,7 @@ def step (r : Router.Router) (ws : List String) : Router.Router × String :=
             if !hintFor hints.toList d then "fail"
             else if cres = "ok" then "ok" else s!"rej {natOf ccode}"
       -- how many of the `nmw` links are shown the caller's context (`Next::ctx()`)
-      let links := if natOf nmw = 0 then 0 else if Gen.handlerFacts.nextForwardsCtx then natOf nmw else 1
+      let links := if Gen.handlerFacts.nextForwardsCtx then natOf nmw else 0
       (r, s!"{idx} {cls} exec {exec} links {links}")
   | _ => (r, (ws.getD 1 "?") ++ " bad-op")
 
